@@ -236,6 +236,13 @@ def judge(d, mc, stats):
     smap = {s["name"]: s for s in d["s"]}
     if mc.get("bad"):
         tie.append(("driver", "bad-line", mc["bad"][:2]))
+    for m in d["m"]:
+        if m["in"] == 2:
+            stats["rewritten_valence_masters"] += 1
+            if m["m0"] != m["prim"]:
+                stats["rewritten_relative_to_switched_basis"] += 1
+    if alt_pe:
+        stats["states_with_redox_couple"] += 1
     for s in d["s"]:
         n = s["name"]
         if s["type"] > 1:          # H2O, e-: activities are unknowns, no molality assignment
@@ -364,8 +371,6 @@ def judge(d, mc, stats):
         if -300 < si < 300 and not close(sr, 10 ** si, 1e-9):
             orc.append(("readout", n, f"SR {sr!r} != 10^SI {10 ** si!r}"))
         if one_atm and not alt_pe:
-            if abs(p["lk"] - lk_m) > TOL_LOG:
-                orc.append(("lk-phase", n, f"log K(T) engine {p['lk']!r}, database text {lk_m!r} at {d['tk']} K"))
             if abs(si - si_m) > TOL_LOG * ncoef * 4:
                 orc.append(("SI", n, f"SI engine {si!r}, from database reaction and reported activities {si_m!r}"))
             rkp = d["rkp"].get(n)
@@ -388,7 +393,8 @@ def judge(d, mc, stats):
 def new_stats():
     return {k: 0 for k in ("rx", "rx_nontrivial", "lk", "lk_analytic", "lk_vanthoff", "res", "res_missing", "res_altpe_skipped",
                            "readouts", "sums", "si", "si_skipped", "gate", "dumps", "runs", "runs_error", "runs_nodump",
-                           "above_1atm")} | {"res_max": 0.0}
+                           "above_1atm", "rewritten_valence_masters", "rewritten_relative_to_switched_basis",
+                           "states_with_redox_couple")} | {"res_max": 0.0}
 
 
 # ------------------------------------------------------------------------------------------ database tie
@@ -480,7 +486,7 @@ def compare_db(ctx, exe, dbname, db):
         if nm not in db.phases:
             diffs.append(f"engine phase {nm} unknown to the parser")
     mine_m = [(m.element, m.species, m.alk, 1 if m.primary else 0) for m in db.masters]
-    eng_m = [(a, b, c, d) for a, b, c, d in em if not any(a == x[0] for x in db.exchange_masters + db.surface_masters)]
+    eng_m = [(a, b, c, d) for a, b, c, d in em if es.get(b, {"type": 9})["type"] <= 3]
     if sorted(mine_m) != sorted(eng_m):
         diffs.append(f"master species differ: only engine {sorted(set(eng_m) - set(mine_m))[:5]} only parser {sorted(set(mine_m) - set(eng_m))[:5]}")
     return diffs, n
@@ -663,7 +669,7 @@ def run(ctx):
     cov = {k: {} for k in ("kinds", "features", "n_elements", "temp_bins", "ph_bins", "units", "log_molal_bins")}
     dbs, excluded = databases(ctx)
     thorough = ctx.tier == "thorough" or not ok
-    nruns = 400 if thorough else 40
+    nruns = 1500 if thorough else 250
     # 1. k_calc directly
     bad, nk = kcalc_direct(ctx, exe, 2000 if thorough else 300)
     if bad:
